@@ -371,10 +371,37 @@ pub fn worker(wi: usize, wn: usize, tier: &str) {
         "preempted_distinct":agg.preempted_distinct_outcomes,"violations":agg.viol.to_json()}));
 }
 
+fn run_server_slice(tier: &str) -> Result<Value, String> {
+    let bin = std::env::var("SRVMC_BIN").map_err(|_| "SRVMC_BIN not set (run through bin/check)".to_string())?;
+    let out = std::process::Command::new(&bin).arg("C05S").arg(tier).env_remove("VERIF_WORKER").env_remove("VERIF_WORKER_OUT").output().map_err(|e| format!("cannot run {bin}: {e}"))?;
+    let stdout = String::from_utf8_lossy(&out.stdout);
+    let line = stdout.lines().find_map(|l| l.strip_prefix("C05S-RESULT ")).ok_or_else(|| format!("no result line; exit {:?}; stderr: {}", out.status.code(), String::from_utf8_lossy(&out.stderr)))?;
+    serde_json::from_str(line).map_err(|e| format!("bad result: {e}"))
+}
+
 pub fn run(tier: &str, replay: Option<&str>) -> i32 {
     if let Some(p) = replay {
         let v: Value = serde_json::from_str(&std::fs::read_to_string(p).expect("read")).expect("json");
         let c = &v["case"];
+        if c["check"] == "C05S" {
+            let sig = v["signature"].as_str().unwrap_or("").to_string();
+            return match run_server_slice("thorough") {
+                Ok(r) => {
+                    if r["violations"].as_array().map(|a| a.iter().any(|x| x["sig"] == sig.as_str())).unwrap_or(false) {
+                        println!("replay: reproduced {sig}");
+                        println!("VIOLATION property=C05 replay={p}");
+                        1
+                    } else {
+                        println!("replay: no violation with signature {sig}");
+                        0
+                    }
+                }
+                Err(e) => {
+                    eprintln!("machinery error: {e}");
+                    2
+                }
+            };
+        }
         // programs are re-explored (the schedule indices depend on the branching set)
         let names: Vec<Vec<String>> = serde_json::from_value(c["program"].clone()).unwrap();
         let init: Init = serde_json::from_value(c["init"].clone()).unwrap();
@@ -425,6 +452,20 @@ pub fn run(tier: &str, replay: Option<&str>) -> i32 {
     ev.set("executions_ending_in_deadlock_left_to_C08", tot["deadlocks"]);
     ev.assume("scheduling points are lock acquisitions; interleavings between two lock operations of one thread (atomics) are not explored");
     ev.assume("the seeded-random-priority schedules beyond the bound mentioned in the quantifier are not part of this claim (sampling is another family)");
+    // server-level slice: the gRPC read handlers under the same scheduler (srvmc C05S)
+    match run_server_slice(tier) {
+        Ok(v) => {
+            rep.report_bag(&v["violations"]);
+            ev.set("server_slice_programs", v["programs"].clone());
+            ev.set("server_slice_executions", v["executions"].clone());
+            ev.set("server_slice_reads_judged", v["reads_judged"].clone());
+            ev.set("server_slice_rule", "Query(with embedding) and BulkQuery through the real in-process gRPC handlers x {overwrite, two overwrites, delete + re-insert, metadata update + overwrite} x initial state {recent-write tier, drained, drained + cached}, every schedule with <= 2 (thorough 3) preemptions: vector and metadata of one response belong to the same write");
+        }
+        Err(e) => {
+            eprintln!("C05: machinery error in the server-level slice: {e}");
+            return 2;
+        }
+    }
     ev.violations = rep.violations as i64;
     ev.write();
     println!("C05 {tier}: programs={} executions={} points={} capped={} nontrivial={} deadlocks={} violations={}", tot["programs"], tot["executions"], tot["points"], tot["capped"], tot["preempted_distinct"], tot["deadlocks"], rep.violations);
